@@ -64,6 +64,7 @@ class HwCheck:
         self.use_auto = False; self.auto_width = 8
         self.bmc_depth = 16; self.bmc_time = 60
         self.cosim_cycles = 24
+        self.skip_cosim = False       # designs the single-clock co-simulation cannot drive (several clock domains): stated in the case's assumptions
         self.input_constraints = []   # for cosim/replay random stimulus (callables: dict->bool) unused by proofs
     # ---- terms
     def v(self, sig): return self.ts.rd(sig)
@@ -354,7 +355,8 @@ class HwCheck:
                         for i, val in zip(ins, trace[k + 1]): yield i.eq(val)
                     yield
             clocks = {self.clock: 10} if self.clock else {"sys": 10}
-            run_simulation(copy_fragment(self.ts.f0), gen(), clocks=clocks)
+            for k_, cdn in enumerate(sorted(c for c in self.ts.next if c not in clocks)): clocks[cdn] = 14 + 4 * k_      # other clock domains of the design run too (the generator follows self.clock)
+            run_simulation(copy_fragment(self.ts.f0), {next(iter(clocks)): [gen()]} if len(clocks) > 1 else gen(), clocks=clocks)
         finally:
             for i, r in saved: i.reset = r
         return rows
@@ -473,8 +475,10 @@ class HwCheck:
         # extraction validated against the real simulator (checker fault if it differs, never a violation)
         t0 = time.time()
         try:
+            if self.skip_cosim: raise StopIteration
             compared, mism = self.cosim(seed=int(os.environ.get("VERIF_SEED", "0")))
             out.append(res("cosim", "extraction", OK if not mism else FAULT, time.time() - t0, "litex.gen.sim", compared=compared, mismatches=[str(x) for x in mism[:3]]))
+        except StopIteration: pass
         except Exception as e:
             out.append(res("cosim", "extraction", FAULT, time.time() - t0, "litex.gen.sim", info=f"{type(e).__name__}: {e}"))
         st, _, be, t = self._solve(self.base() + self.inv)
